@@ -275,13 +275,15 @@ func corpus() []Input {
 		mk(LDAP, op(a), tk(a, 1, 0), op(b), tk(a, 4, 0)),
 		// ldap: B leaves, A's next request finds the service object's socket closed
 		mk(LDAP, op(a), tk(a, 1, 0), op(b), cl(b), tk(a, 4, 0)),
-		// ftp: an earlier session is over; its event pump still takes lines of the next session
+		// ftp: an earlier session is over (regression: before /repo 9efeaf2 its event pump took lines
+		// of the next session)
 		mk(FTP, op(a), tk(a, 1, 1), cl(a), op(b), tk(b, 1, 1), tk(b, 2, 1), tk(b, 6, 0), tk(b, 6, 0)),
 		// ftp: A changes directory, B's PWD follows
 		mk(FTP, op(a), tk(a, 1, 1), tk(a, 2, 1), op(b), tk(b, 1, 1), tk(b, 2, 1), tk(b, 3, 0), tk(a, 4, 1), tk(b, 3, 0)),
 		// ftp: the directory of a finished session is where the next one starts
 		mk(FTP, op(a), tk(a, 1, 1), tk(a, 2, 1), tk(a, 4, 8), tk(a, 8, 0), op(b), tk(b, 1, 1), tk(b, 2, 1), tk(b, 3, 0), tk(b, 4, 1)),
-		// smtp: mails of B while the pumps of a finished session A and of an idle session C wait
+		// smtp: mails of B while a session A has finished (its pump is gone since /repo 7ad8491) and
+		// the pump of an idle, open session C waits on the shared receive channel
 		mk(SMTP, op(a), tk(a, 1, 0), tk(a, 8, 0), op(c), op(b), tk(b, 1, 0), tk(b, 2, 0), tk(b, 3, 0), tk(b, 4, 0), tk(b, 5, 0),
 			tk(b, 2, 0), tk(b, 4, 0), tk(b, 5, 0), tk(b, 2, 0), tk(b, 4, 0), tk(b, 5, 0), tk(b, 8, 0)),
 		// tftp: two uploads interleaved, then the limiter boundary (5th datagram of A dropped)
